@@ -1,6 +1,7 @@
 package schema
 
 import (
+	"strconv"
 	"fmt"
 	"math/rand"
 )
@@ -195,13 +196,66 @@ func (g *Gen) visibleTypedefs(s *Scope) []string {
 // special builds a type statement whose attributes must survive a derivation chain:
 // an enumeration, a leafref, a decimal64 or a union of distinct built-ins.
 func (g *Gen) special(s *Scope) *TypeRef {
-	switch g.pick(4) {
+	// written values for some members: ascending, descending below what came before, negative,
+	// at the top of the range only for the last member (so that nothing overflows or collides)
+	vals := func(n int, bits bool) []string {
+		if g.pick(2) == 0 {
+			return nil
+		}
+		out := make([]string, n)
+		used := map[int64]bool{}
+		first, max := true, int64(0)
+		for k := 0; k < n; k++ {
+			var v int64
+			switch g.pick(4) {
+			case 0, 1: // implicit
+				if !first {
+					v = max + 1
+				}
+			case 2:
+				v = max + 2 + int64(g.pick(40))
+				out[k] = strconv.FormatInt(v, 10)
+			default:
+				v = int64(g.pick(60)) - 30
+				if bits && v < 0 {
+					v = -v
+				}
+				if !bits && k == n-1 && g.pick(3) == 0 {
+					v = []int64{2147483647, -2147483648}[g.pick(2)]
+				}
+				if bits && k == n-1 && g.pick(3) == 0 {
+					v = 4294967295
+				}
+				for used[v] {
+					v++
+				}
+				out[k] = strconv.FormatInt(v, 10)
+			}
+			used[v] = true
+			if first || v > max {
+				max = v
+			}
+			first = false
+		}
+		return out
+	}
+	switch g.pick(6) {
 	case 0:
 		t := &TypeRef{Name: "enumeration", Scope: s}
 		for q := 2 + g.pick(3); q > 0; q-- {
 			t.Enums = append(t.Enums, g.name("e"))
 		}
+		t.EnumVals = vals(len(t.Enums), false)
 		return t
+	case 4:
+		t := &TypeRef{Name: "bits", Scope: s}
+		for q := 1 + g.pick(4); q > 0; q-- {
+			t.Bits = append(t.Bits, g.name("b"))
+		}
+		t.BitPos = vals(len(t.Bits), true)
+		return t
+	case 5:
+		return &TypeRef{Name: "string", Length: []string{"1..10", "0..5|10", "3", "0|2..4|18446744073709551615", "255"}[g.pick(5)], Scope: s}
 	case 1:
 		return &TypeRef{Name: "leafref", Path: "../" + g.name("lp"), Scope: s}
 	case 2:
